@@ -385,7 +385,11 @@ class Group:
         try:
             with warnings.catch_warnings():
                 warnings.simplefilter("ignore")
-                if direction == "u":
+                if isinstance(t, str):
+                    # a bare string reference is resolved from the caller's frames: call from inside the module
+                    depth = getattr(self, "ref_depth", 0)
+                    r = self.mod._verif_um(t, x, depth) if direction == "u" else self.mod._verif_m(t, x, depth)
+                elif direction == "u":
                     r = unmarshals.unmarshal(t, x)
                 else:
                     r = marshals.marshal(x, t=t)
@@ -426,6 +430,11 @@ class Group:
         from typelib import graph
         from typelib.py import refs
         impl.clear_caches()
+        if isinstance(pytype, str) and pytype.split(".")[-1].startswith("N") and pytype.split(".")[-1][1:].isdigit():
+            pytype = getattr(self.mod, pytype.split(".")[-1])      # the model looks orders up by the evaluated type
+        import typing as _t
+        if isinstance(pytype, _t.ForwardRef):
+            pytype = getattr(self.mod, pytype.__forward_arg__.split(".")[-1])
         d = self.reg.desc_of(pytype)
         if d is None:
             self.order_problems.append(f"no description for {pytype!r}")
